@@ -18,8 +18,8 @@ package table
 //@ pred (t *Table) inv() =
 //@     t != nil && t.hkeys != nil && t.offsetIndex != nil &&
 //@     len(t.memory) == t.allocated && t.offset <= t.allocated && t.inuse + t.garbage == t.offset &&
-//@     (forall h uint64 :: h in t.hkeys ==> t.hkeys[h] + t.sizeAt(t.hkeys[h]) <= t.offset && t.offsetIndex.set[t.hkeys[h]] && t.hk[t.hkeys[h]] == h) &&
-//@     (forall o uint64 :: t.offsetIndex.set[o] ==> (t.hk[o] in t.hkeys) && t.hkeys[t.hk[o]] == o)
+//@     (forall h uint64 {dom(t.hkeys)[h]} :: dom(t.hkeys)[h] ==> t.hkeys[h] + t.sizeAt(t.hkeys[h]) <= t.offset && t.offsetIndex.set[t.hkeys[h]] && t.hk[t.hkeys[h]] == h) &&
+//@     (forall o uint64 {t.offsetIndex.set[o]} :: t.offsetIndex.set[o] ==> dom(t.hkeys)[t.hk[o]] && t.hkeys[t.hk[o]] == o)
 
 //@ func New(size uint64) *Table
 //@   props C11 C20
@@ -54,3 +54,57 @@ package table
 //@   requires #inv_in: t.inv()
 //@   ensures  #fields: result.Allocated == t.allocated && result.Inuse == t.inuse && result.Garbage == t.garbage && result.Length == len(t.hkeys) && result.RecycledAt == t.recycledAt
 //@   modifies nothing
+
+// ---- byte-level view of the live entry of a key
+//@ pure func (t *Table) klen(h uint64) int = t.memory[t.hkeys[h]]
+//@ pure func (t *Table) vlen(h uint64) int = be32(t.memory, t.hkeys[h]+25+t.memory[t.hkeys[h]])
+//@ pure func (t *Table) size(h uint64) int = t.sizeAt(t.hkeys[h])
+
+//@ func (t *Table) Put(hkey uint64, value storage.Entry) error
+//@   props C11 C17 C20
+//@   requires #inv_in: t.inv()
+//@   requires #entry: value != nil && len(value.value) < 4294967296
+//@   requires #separate [C18]: base(value.value) != base(t.memory)
+//@   ensures  #inv_out: t.inv()
+//@   ensures  #too_large [C17]: (result == storage.ErrKeyTooLarge) == (len(value.key) >= 256)
+//@   ensures  #nospace [C17]: (result == ErrNotEnoughSpace) == (len(value.key) < 256 && 29 + len(value.key) + len(value.value) + old(t.offset) >= t.allocated)
+//@   ensures  #err_kind: result == nil || result == storage.ErrKeyTooLarge || result == ErrNotEnoughSpace
+//@   ensures  #error_changes_nothing [C17]: result != nil ==> t.offset == old(t.offset) && t.inuse == old(t.inuse) && t.garbage == old(t.garbage) &&
+//@                (forall h uint64 :: t.has(h) == old(t.has(h)) && t.off(h) == old(t.off(h))) &&
+//@                (forall i int :: 0 <= i && i < len(t.memory) ==> t.memory[i] == old(t.memory[i]))
+//@   ensures  #st_has [C11 C17]: result == nil ==> t.has(hkey) && t.off(hkey) == old(t.offset)
+//@   ensures  #st_klen [C11 C17]: result == nil ==> t.memory[old(t.offset)] == len(value.key)
+//@   ensures  #st_key [C11 C17]: result == nil ==> forall i int :: 0 <= i && i < len(value.key) ==> t.memory[old(t.offset)+1+i] == strbytes(value.key)[i]
+//@   ensures  #st_ttl [C11 C17]: result == nil ==> be64(t.memory, old(t.offset)+1+len(value.key)) == uint64(value.ttl)
+//@   ensures  #st_ts [C11 C17]: result == nil ==> be64(t.memory, old(t.offset)+9+len(value.key)) == uint64(value.timestamp)
+//@   ensures  #st_vlen [C11 C17]: result == nil ==> be32(t.memory, old(t.offset)+25+len(value.key)) == len(value.value)
+//@   ensures  #st_val [C11 C17]: result == nil ==> forall i int :: 0 <= i && i < len(value.value) ==> t.memory[old(t.offset)+29+len(value.key)+i] == old(value.value[i])
+//@   ensures  #others [C11]: forall h uint64 :: h != hkey ==> (t.has(h) == old(t.has(h)) && t.off(h) == old(t.off(h)))
+//@   ensures  #below [C11 C17]: forall i int :: 0 <= i && i < old(t.offset) ==> t.memory[i] == old(t.memory[i])
+//@   ensures  #acct [C20]: result == nil ==> t.offset == old(t.offset) + 29 + len(value.key) + len(value.value) &&
+//@                t.inuse == old(t.inuse) + 29 + len(value.key) + len(value.value) - ite(old(t.has(hkey)), old(t.size(hkey)), 0) &&
+//@                t.garbage == old(t.garbage) + ite(old(t.has(hkey)), old(t.size(hkey)), 0)
+//@   ensures  #len [C11]: result == nil ==> len(t.hkeys) == old(len(t.hkeys)) + ite(old(t.has(hkey)), 0, 1)
+//@   ensures  #no_alias [C18]: base(t.memory) == old(base(t.memory))
+//@   modifies t.offset, t.inuse, t.garbage, map(t.hkeys), t.offsetIndex.set, elems(t.memory), t.hk
+//@   ghost t.hk := ite(result == nil, update(old(t.hk), old(t.offset), hkey), old(t.hk))
+
+//@ func (t *Table) PutRaw(hkey uint64, value []byte) error
+//@   props C11 C04 C20
+//@   requires #inv_in: t.inv()
+//@   requires #wf [C16]: entry.wfAt(elems(value), off(value), len(value))
+//@   requires #separate [C18]: base(value) != base(t.memory)
+//@   ensures  #inv_out: t.inv()
+//@   ensures  #nospace: (result == ErrNotEnoughSpace) == (len(value) + old(t.offset) >= t.allocated)
+//@   ensures  #err_kind: result == nil || result == ErrNotEnoughSpace
+//@   ensures  #stored [C11 C04]: result == nil ==> t.has(hkey) && t.off(hkey) == old(t.offset) &&
+//@                (forall i int :: 0 <= i && i < len(value) ==> t.memory[old(t.offset)+i] == old(value[i]))
+//@   ensures  #others [C11]: forall h uint64 :: h != hkey ==> (t.has(h) == old(t.has(h)) && t.off(h) == old(t.off(h)))
+//@   ensures  #below [C11]: forall i int :: 0 <= i && i < old(t.offset) ==> t.memory[i] == old(t.memory[i])
+//@   ensures  #acct [C20]: result == nil ==> t.offset == old(t.offset) + len(value) &&
+//@                t.inuse == old(t.inuse) + len(value) - ite(old(t.has(hkey)), old(t.size(hkey)), 0) &&
+//@                t.garbage == old(t.garbage) + ite(old(t.has(hkey)), old(t.size(hkey)), 0)
+//@   ensures  #error_changes_nothing: result != nil ==> t.offset == old(t.offset) && t.inuse == old(t.inuse) && t.garbage == old(t.garbage) &&
+//@                (forall h uint64 :: t.has(h) == old(t.has(h)) && t.off(h) == old(t.off(h)))
+//@   modifies t.offset, t.inuse, t.garbage, map(t.hkeys), t.offsetIndex.set, elems(t.memory), t.hk
+//@   ghost t.hk := ite(result == nil, update(old(t.hk), old(t.offset), hkey), old(t.hk))
